@@ -123,7 +123,7 @@ def run(ctx):
     sf = prog.find("simple_dns::<String as TryFrom<TXT>>::try_from")
     if sf is not None:
         report.count()
-        fam = [sf] + [x for x in prog.bodies.values() if x.kind == "Closure" and x.root == sf.id]
+        fam = [sf] + mu.closures_of(prog, sf)
         ext = []
         rev = []
         for x in fam:
@@ -160,7 +160,7 @@ def run(ctx):
         fb = prog.find(q)
         if fb is None:
             continue
-        fam = [fb] + [x for x in prog.bodies.values() if x.kind == "Closure" and x.root == fb.id]
+        fam = [fb] + mu.closures_of(prog, fb)
         n_eq = n_semi = 0
         for x in fam:
             xdefs = mu.defs_of(x)
@@ -215,7 +215,7 @@ def run(ctx):
     # ---- R6 absent vs empty on the writing side
     hm = prog.find("simple_dns::<TXT as TryFrom<HashMap<String, Option<String>>>>::try_from")
     if hm is not None:
-        fam = [hm] + [x for x in prog.bodies.values() if x.kind == "Closure" and x.root == hm.id]
+        fam = [hm] + mu.closures_of(prog, hm)
         collapses = []
         matches = 0
         for x in fam:
